@@ -3,12 +3,14 @@ From HDC Require Import Base.Prelude Base.Float Model.Rolling.
 From Coq Require Import PrimFloat.
 Open Scope Z_scope.
 
-(** rolling_sum kernel: series, window, nodata, kernel output (integral float32 values as Z) *)
-Record rcase := RC { r_xx : list Z; r_ws : nat; r_nd : Z; r_out : list Z }.
+(** rolling_sum kernel: series, window, nodata, kernel output (float32 values) *)
+Record rcase := RC { r_xx : list Z; r_ws : nat; r_nd : Z; r_out : list float }.
+(** the kernel's output buffer is float32: the integer result is stored through binary32 *)
+Definition store_f32 (z : Z) : float := to_f32 (f_of_Z z).
 Definition check_rolling (c : rcase) : bool :=
-  zeqb_list (rolling_sum (r_xx c) (r_ws c) (r_nd c)) (r_out c).
+  flist_eq_bits (map store_f32 (rolling_sum (r_xx c) (r_ws c) (r_nd c))) (r_out c).
 Definition check_rolling_acc (c : rcase) : bool :=
-  zeqb_list (rolling_accessor (r_xx c) (r_ws c) (r_nd c)) (r_out c).
+  flist_eq_bits (map store_f32 (rolling_accessor (r_xx c) (r_ws c) (r_nd c))) (r_out c).
 
 (** mean_grp kernel: output cells are float32; the kernel divides in binary64 and stores binary32 *)
 Record mcase := MC { m_xx : list Z; m_grp : list Z; m_ng : Z; m_nd : Z; m_out : list float }.
